@@ -94,7 +94,7 @@ class SetPropDecl(_PropDecl):
 class StreamResponseDecl(Contract):
     name = "Pyro5.server.Daemon._streamResponse"
     props = ()
-    log_calls = False
+    log_calls = True
     raises = {"Pyro5.errors.PyroError": "x_any"}
 
     def result(self, E, st, a):
@@ -335,6 +335,35 @@ class HandleRequest(Contract):
             post.append(("C03/C07: the error reply carries the request's sequence number", sq.e == st.get(msg, "seq").e if isinstance(sq, VInt) else z3.BoolVal(False)))
             sid = ea["serializer_id"]
             post.append(("C07: the error reply names the request's serializer", sid.e == st.get(msg, "serializer_id").e if isinstance(sid, VInt) else z3.BoolVal(False)))
+        # C10: how a streamed result is announced
+        streamed = [e for e in calls(st, "Daemon._streamResponse") if e[3] == "return"]
+        for e in viaexc:
+            fl = e[2].get("flags")
+            if isinstance(fl, VInt) and z3.is_true(z3.simplify(fl.e == FLAGS_ITEMSTREAMRESULT)):
+                ok = len(streamed) == 1
+                post.append(("C10: an item-stream announcement is sent only after _streamResponse reported a stream for this request's result", z3.BoolVal(ok)))
+                if ok:
+                    isstream, sid = streamed[0][4].items
+                    post.append(("C10: ... and it did report a stream", isstream.e))
+                    ann = e[2].get("annotations")
+                    from specs.opaque import utf8
+                    has_id = z3.And(sid.e != U_NONE, truthy(sid.e))
+                    disp = [d for d in st.events if d[0] == "dict_display" and isinstance(ann, VOpaque) and z3.eq(d[1].e, ann.e)]
+                    if isinstance(ann, VObj) and ann.cls == "seqdict":
+                        n, keys, vals = st.get(ann, "n").e, st.get(ann, "keys"), st.get(ann, "vals")
+                        post.append(("C10: the announcement names exactly the stream id that was registered (one annotation STRM = the id, encoded); without an id (streaming "
+                                     "disabled) it carries no annotation",
+                                     z3.If(has_id, z3.And(n == 1, keys[0] == z3.StringVal("STRM"), vals[0] == utf8(unbox_str(sid.e))), n == 0)))
+                    elif disp:
+                        keys = disp[0][2].items if isinstance(disp[0][2], (VTuple, VList)) else list(disp[0][2])
+                        vals = disp[0][3].items if isinstance(disp[0][3], (VTuple, VList)) else list(disp[0][3])
+                        ok1 = len(keys) == 1 and isinstance(keys[0], VStr) and isinstance(vals[0], VBytes)
+                        post.append(("C10: the announcement names exactly the stream id that was registered (one annotation STRM = the id, encoded)",
+                                     z3.And(has_id, keys[0].e == z3.StringVal("STRM"), vals[0].e == utf8(unbox_str(sid.e))) if ok1 else z3.BoolVal(False)))
+                    else:
+                        post.append(("C10: the announcement's annotations are built here ({'STRM': id} or {})", z3.BoolVal(False)))
+        if direct and streamed:
+            post.append(("C10: a result that was turned into a stream is never ALSO sent as an ordinary reply", z3.Not(streamed[0][4].items[0].e)))
         ucalls = self.user_events(st)
         batch = bit(flags, 3) == 1
         if ("loop", 0) not in st.events:
